@@ -100,8 +100,8 @@ CHECKS = {
             'oracles': [O.oracle_c06], 'level': 'exploration'},
     'C08': {'profiles': [('core', 2000, 80000), ('core-cancel', 2000, 80000), ('core-ends', 1500, 60000),
                          ('core-lease', 1000, 40000), ('core-eager', 1000, 40000), ('core-await', 1000, 40000),
-                         ('reconnect', 2000, 60000)],
-            'oracles': {'core': [O.oracle_c08], 'core-cancel': [O.oracle_c08], 'core-ends': [O.oracle_c08], 'core-lease': [O.oracle_c08],
+                         ('reconnect', 2000, 60000), ('routing', 2000, 60000)],
+            'oracles': {'routing': [XRT.oracle_c08_routing], 'core': [O.oracle_c08], 'core-cancel': [O.oracle_c08], 'core-ends': [O.oracle_c08], 'core-lease': [O.oracle_c08],
                         'core-eager': [O.oracle_c08], 'core-await': [O.oracle_c08], 'reconnect': [XR.oracle_c08_reconnect]},
             'level': 'exploration'},
     'C13': {'profiles': [('core-ids', 5000, 200000), ('core', 1000, 40000), ('id-reuse', 2000, 60000)],
